@@ -198,6 +198,43 @@ theorem gf_p_one_zero (fl : F → Nat) (hfl : ∀ n : Nat, fl (n : F) = n) (l : 
     have e := hmean _ false hasg
     exact ⟨e, by rw [meanOf_replicate m hm, e]⟩
 
+/-- **A condition nobody meets changes nothing, wherever it is listed** (stochastic g-formula).  A well-formed draw from
+    an empty pool is the empty draw whatever the probability attached to the condition, and an empty draw inserted at any
+    position of the listing leaves every row's assignment unchanged: the conditions listed after an empty stratum keep
+    their draws. -/
+theorem gf_assign_empty_condition (fl : F → Nat) (p : F) (d : List Nat) (hd : DrawOK fl p [] d)
+    (ch₁ ch₂ : List (List Nat)) (i : Nat) :
+    d = [] ∧ gfAssign (ch₁ ++ d :: ch₂) i = gfAssign (ch₁ ++ ch₂) i := by
+  have hnil : d = [] := by
+    cases d with
+    | nil => rfl
+    | cons x xs => exact absurd (hd.2.1 x (List.mem_cons_self ..)) (List.not_mem_nil)
+  subst hnil
+  refine ⟨rfl, ?_⟩
+  unfold gfAssign
+  simp
+
+/-- **Conditions are read off the observed data.**  The treated set depends on the conditions only through the draws, and a
+    well-formed draw of a condition is a subset of the rows the condition selects in the observed table: a row that meets
+    none of the conditions whose draws are non-empty is untreated, and a row is treated exactly when the draw of (one of)
+    its condition(s) contains it — nothing in this depends on which conditions were applied before. -/
+theorem gf_assign_iff_drawn (draws : List (List Nat × List Nat)) (fl : F → Nat) (ps : List Nat → F)
+    (hd : ∀ d ∈ draws, DrawOK fl (ps d.1) d.1 d.2) (i : Nat) :
+    (gfAssign (draws.map (·.2)) i = true ↔ ∃ d ∈ draws, i ∈ d.2) ∧
+    (gfAssign (draws.map (·.2)) i = true → ∃ d ∈ draws, i ∈ d.1) := by
+  have h : gfAssign (draws.map (·.2)) i = true ↔ ∃ d ∈ draws, i ∈ d.2 := by
+    unfold gfAssign
+    rw [List.contains_iff_mem, List.mem_flatMap]
+    constructor
+    · rintro ⟨c, hc, hic⟩
+      obtain ⟨d, hdm, rfl⟩ := List.mem_map.mp hc
+      exact ⟨d, hdm, hic⟩
+    · rintro ⟨d, hdm, hic⟩
+      exact ⟨d.2, List.mem_map.mpr ⟨d, hdm, rfl⟩, hic⟩
+  refine ⟨h, fun ht => ?_⟩
+  obtain ⟨d, hdm, hic⟩ := h.mp ht
+  exact ⟨d, hdm, (hd d hdm).2.1 i hic⟩
+
 /-- **StochasticTMLE, p ≡ 1 / p ≡ 0**: every Bernoulli(1) (Bernoulli(0)) draw is 1 (0), so every covered
     row is assigned treatment (no treatment) in every resample whatever the seed; the Monte-Carlo integration is
     degenerate: all resamples are identical and their mean is that common value -/
@@ -333,5 +370,28 @@ example : realised exRows (fun _ => true) (fun r => gfAssign [[0, 2], [4]] r.i) 
   decide +kernel
 example : DrawOK (fun q : ℚ => ⌊q⌋.toNat) 1 [0, 1, 2] [2, 0, 1] ∧ ∀ n : Nat, (fun q : ℚ => ⌊q⌋.toNat) (n : ℚ) = n := by
   refine ⟨⟨by decide, by decide, by simp [planSize]⟩, fun n => by simp⟩
+
+/-- `gf_assign_empty_condition` on a three-condition listing whose middle condition selects nobody: the third condition's
+    draw still treats its rows (the slip "leave the loop at an empty stratum" would lose row 4) -/
+example : DrawOK (fun q : ℚ => ⌊q⌋.toNat) (7/10) [] [] ∧
+    gfAssign [[0, 2], [], [4]] 4 = true ∧ gfAssign [[0, 2], [], [4]] 4 = gfAssign [[0, 2], [4]] 4 := by
+  refine ⟨⟨by decide, by simp, by simp [planSize]⟩, by decide, by decide⟩
+
+/-- `gf_assign_iff_drawn` on two conditions (pools `[0,1,2]` and `[3,4]`, probabilities 2/3 and 1/2): row 4 is drawn by its
+    own condition, row 1 by none -/
+example :
+    let draws : List (List Nat × List Nat) := [([0, 1, 2], [2, 0]), ([3, 4], [4])]
+    let ps : List Nat → ℚ := fun pool => if pool.length = 3 then 2/3 else 1/2
+    (∀ d ∈ draws, DrawOK (fun q : ℚ => ⌊q⌋.toNat) (ps d.1) d.1 d.2) ∧
+    gfAssign (draws.map (·.2)) 4 = true ∧ gfAssign (draws.map (·.2)) 1 = false := by
+  refine ⟨?_, by decide, by decide⟩
+  intro d hd
+  simp only [List.mem_cons, List.not_mem_nil, or_false] at hd
+  rcases hd with rfl | rfl
+  · refine ⟨by decide, by decide, ?_⟩
+    norm_num [planSize]
+    rfl
+  · refine ⟨by decide, by decide, ?_⟩
+    norm_num [planSize]
 
 end ZV.P14
